@@ -59,6 +59,53 @@ def h_num_stable_sample(rng, n):
     return bad
 
 
+# ------------------------------------------------------------------ Model/NumFmt.v against the runtime
+
+NUM_HEADER = ('From Coq Require Import List ZArith.\n'
+              'From PC Require Import Model.NumFmt Check.C01num.\n'
+              'Import ListNotations.\n')
+
+
+def binrep(x, bits):
+    import math
+    if x == 0:
+        return 0, 0
+    m, e = math.frexp(x)
+    return int(m * 2 ** bits), e - bits
+
+
+def numfmt_cases(rng, n):
+    import decimal
+    vals, terms = [], []
+    while len(terms) < n:
+        r = rng.random()
+        if r < 0.4:
+            x = abs(struct.unpack('f', struct.pack('I', rng.getrandbits(31)))[0])
+        elif r < 0.55:
+            x = rng.uniform(2.0 ** -10, 1e-3)
+        elif r < 0.65:
+            x = rng.uniform(2.0 ** -30, 1e-9)
+        elif r < 0.75:
+            x = (rng.randint(1000000, 9999999) + 0.5) * 10.0 ** rng.randint(-12, 1)
+        else:
+            x = abs(c01gen.any_double(rng))
+        if x != x or not (x == 0 or 1e-30 <= x < 1e9):
+            continue
+        tok = fmt7(x)
+        t = decimal.Decimal(tok).as_tuple()
+        D, q = int(''.join(map(str, t.digits))), t.exponent
+        if D == 0:
+            D, q = 0, 0
+        else:
+            k = 7 - len(str(D))
+            D, q = D * 10 ** k, q - k
+        m, e = binrep(x, 53)
+        M, E = binrep(parse32(tok), 24)
+        vals.append(x)
+        terms.append(ctuple(cZ(m), cZ(e), ctuple(cZ(D), cZ(q)), ctuple(cZ(M), cZ(E))))
+    return vals, terms
+
+
 # ------------------------------------------------------------------ programs
 
 def gen_prog(rng, i):
@@ -109,6 +156,21 @@ def ns_of(rec):
 
 def clause_failures(rec, derived=None, root_ns=None):
     """evaluate C01's clauses on one pipeline record; returns [(signature, clause, what)]"""
+    out = _clause_failures(rec, derived, root_ns)
+    if root_ns not in (None, NS141) and out:
+        # Documents in a non-default namespace: every save() creates and looks up elements in the
+        # 1.4.1 namespace.  Either write() raises (signature ...:<exception class>), or it "succeeds"
+        # and the output mixes namespaces, so that it does not reload to an equivalent model; all
+        # manifestations of the second kind share one signature (the input predicate is the narrow part).
+        sig0, clause0, what0 = out[0]
+        if not (rec.get('error') and ((rec.get('stage') or '').startswith('write') or rec.get('stage') == 'worker')):
+            return [('C01:write-after-load:non-default-namespace:output-in-default-namespace', 'write-after-load',
+                     'document in namespace %s: write() produced a document that does not reload to an equivalent model (%s)'
+                     % (root_ns, what0))]
+    return out
+
+
+def _clause_failures(rec, derived=None, root_ns=None):
     out = []
     if rec.get('error'):
         stage = rec.get('stage') or 'worker'
@@ -307,6 +369,11 @@ def run(ctx):
         nidx += enc[2]
     ctx.log('evaluating %d float sources and %d index streams against the model inside Coq' % (nsrc, nidx))
     bad, errors = core.coq_eval_cases(ctx, HEADER, 'C01.case', terms, 'C01.mismatches', chunk=20, label='numeric')
+    # ---- the Gallina '%.7g' / binary32 definitions against the runtime, bit for bit
+    nnum = 20000 if quick else 200000
+    nvals, nterms = numfmt_cases(random.Random(ctx.seed + 29), nnum)
+    bad_n, err_n = core.coq_eval_cases(ctx, NUM_HEADER, 'C01num.case', nterms, 'C01num.mismatches', chunk=500, label='numfmt')
+    errors = errors + err_n
     # ---- H_num_stable on the runtime
     nstab = 20000 if quick else 1000000
     unstable = h_num_stable_sample(random.Random(ctx.seed + 17), nstab)
@@ -317,6 +384,8 @@ def run(ctx):
     failures = failures_from(items)
     mismatches = [{'case_index': owners[i], 'input': {'program': progs[owners[i]]}, 'kind': 'numeric streams',
                    'explained_by_known': False} for i in bad[:10]]
+    mismatches += [{'case_index': i, 'input': {'value': float(nvals[i]).hex()}, 'kind': 'Model/NumFmt.v vs the runtime',
+                    'explained_by_known': False} for i in bad_n[:10]]
     # ---- distribution
     feats, seen = {}, set()
     derived = {'ns15': 0, 'noscene': 0, 'constructed': 0}
@@ -343,7 +412,7 @@ def run(ctx):
                     for p, r in list(zip(progs, results))[ncorpus_progs:ncorpus_progs + 3]],
         'distribution': {'features': feats, 'documents': derived, 'source_values': nvalues,
                          'float_sources_in_coq': nsrc, 'index_streams_in_coq': nidx, 'programs_in_coq': len(terms),
-                         'h_num_stable_samples': nstab,
+                         'h_num_stable_samples': nstab, 'numfmt_values_in_coq': len(nterms),
                          'shipped_documents': dict((r['file'], 'loadable' if r.get('loadable') else 'not loadable (%s)' % r.get('load_error'))
                                                    for r in crecs)},
         'mismatches': mismatches,
@@ -376,6 +445,9 @@ def replay(ctx, body):
     if not inp:
         print('replay: nothing to run')
         return 0
+    if 'value' in inp:
+        print('replay: model-of-runtime case (Model/NumFmt.v), nothing to evaluate on pycollada')
+        return 0
     if 'corpus_file' in inp:
         files = [f for f in corpus_files() if f[1] == inp['corpus_file']]
         items = corpus_items(files, run_corpus(files))
@@ -383,9 +455,11 @@ def replay(ctx, body):
         items = evaluate([inp['program']], run_progs([inp['program']]))
     fails = failures_from(items)
     print(json.dumps([{k: f[k] for k in ('signature', 'what')} for f in fails], indent=1))
+    known = {k['signature'] for k in core.load_known() if k.get('property') == 'C01'}
     want = body.get('signature')
-    if fails and (want is None or any(f['signature'] == want for f in fails) or True):
+    relevant = [f for f in fails if f['signature'] == want or f['signature'] not in known]
+    if relevant:
         print('VIOLATION property=C01 replay=%s' % body.get('replay_cmd', '').split()[-1])
         return 1
-    print('replay: the property clauses hold on this input now')
+    print('replay: the property clauses hold on this input now (known findings aside)')
     return 0
